@@ -875,6 +875,164 @@ fn forged_state_step(
 	}
 }
 
+/// Write `b` into the node's state behind the block pipeline, the way a received state arrives: header, txhashset
+/// extension, block, the running sums the pipeline would have stored, body head.
+fn install_behind_pipeline(chain: &grin_chain::Chain, b: &Block, opts: Options) -> Result<(), String> {
+	use grin_chain::txhashset;
+	use grin_core::core::committed::Committed;
+	chain.process_block_header(&b.header, opts).map_err(|e| format!("header: {:?}", e))?;
+	let store = chain.store();
+	let header_pmmr = chain.header_pmmr();
+	let txhashset = chain.txhashset();
+	let mut header_pmmr = header_pmmr.write();
+	let mut txhashset = txhashset.write();
+	let mut batch = store.batch().map_err(|e| format!("{:?}", e))?;
+	let prev_sums = batch.get_block_sums(&b.header.prev_hash).map_err(|e| format!("{:?}", e))?;
+	let (utxo_sum, kernel_sum) = (prev_sums, b as &dyn Committed)
+		.verify_kernel_sums(b.header.overage(), b.header.total_kernel_offset())
+		.map_err(|e| format!("sums: {:?}", e))?;
+	txhashset::extending(&mut header_pmmr, &mut txhashset, &mut batch, |ext, batch| {
+		ext.extension.apply_block(b, ext.header_extension, batch)
+	})
+	.map_err(|e| format!("apply_block: {:?}", e))?;
+	batch.save_block(b).map_err(|e| format!("{:?}", e))?;
+	batch
+		.save_block_sums(&b.hash(), grin_core::core::block_sums::BlockSums { utxo_sum, kernel_sum })
+		.map_err(|e| format!("{:?}", e))?;
+	batch.save_body_head(&grin_chain::Tip::from_header(&b.header)).map_err(|e| format!("{:?}", e))?;
+	batch.commit().map_err(|e| format!("{:?}", e))?;
+	Ok(())
+}
+
+/// A transaction without inputs and outputs: `n` zero-fee kernels with random excess keys, each honestly signed,
+/// compensated by the kernel offset (offset = -(k1 + .. + kn)), so it balances. Kernels are cheap; this is how a
+/// state gets more kernels than one signature batch (5000) holds.
+fn kernels_only_tx(w: &World, p: &mut Prng, n: usize) -> Transaction {
+	use grin_core::libtx::aggsig;
+	use grin_util::secp::key::SecretKey;
+	let secp = w.kc.secp();
+	let mut tx = Transaction::empty();
+	let mut keys = vec![];
+	let mut kernels = vec![];
+	for _ in 0..n {
+		let sk = loop {
+			let mut b = [0u8; 32];
+			p.fill(&mut b);
+			if let Ok(k) = SecretKey::from_slice(secp, &b) {
+				break k;
+			}
+		};
+		let mut kernel = TxKernel::with_features(KernelFeatures::Plain { fee: FeeFields::zero() });
+		let msg = kernel.msg_to_sign().expect("msg");
+		kernel.excess = secp.commit(0, sk.clone()).expect("excess");
+		let pubkey = kernel.excess.to_pubkey(secp).expect("pubkey");
+		let bf = BlindingFactor::from_secret_key(sk.clone());
+		kernel.excess_sig = aggsig::sign_with_blinding(secp, &msg, &bf, Some(&pubkey)).expect("sign");
+		keys.push(sk);
+		kernels.push(kernel);
+	}
+	kernels.sort_unstable();
+	tx.body.kernels = kernels;
+	let neg = secp.blind_sum(vec![], keys).expect("offset");
+	tx.offset = BlindingFactor::from_secret_key(neg);
+	tx
+}
+
+/// Kernel signatures of a whole state are verified in batches of 5000: a chain with more than 5000 kernels (68
+/// blocks carrying 75 kernel-only entries each) in which one block holds an unsigned kernel whose excess hides
+/// created value — once early (inside the first full batch), once as the head (in the tail after a full batch).
+/// Installed behind the pipeline as in `deep_state_phase`; `Chain::validate(false)` must refuse both states.
+fn kernel_scale_phase(run: &Run) {
+	init_thread(true);
+	let t0 = std::time::Instant::now();
+	let sc = Scratch::new("c01kern");
+	let n_blocks = 68u64;
+	for (name, forged_at) in [("unsigned_kernel_inside_the_first_full_signature_batch", 4u64), ("unsigned_kernel_in_the_tail_after_a_full_signature_batch", n_blocks)] {
+		let mut h = vcommon::forktree::Hist::new(run.seed ^ 0xCE41 ^ forged_at, false);
+		let opts: Options = h.opts();
+		let dir = sc.sub(name);
+		let chain = match open_chain(&dir, &h.genesis) {
+			Ok(c) => c,
+			Err(e) => {
+				run.inconclusive(&format!("kernel scale: {}", e));
+				return;
+			}
+		};
+		let replay = json!({"phase": "kernel_scale", "case": name, "blocks": n_blocks, "forged_block_height": forged_at, "kernel_only_entries_per_block": 75});
+		let world = h.world.clone();
+		let mut p = Prng::new(run.seed ^ 0xCE42);
+		let mut tip = h.genesis.hash();
+		let mut ok = true;
+		for i in 1..=n_blocks {
+			let forged = i == forged_at;
+			let mut txs = vec![];
+			if forged {
+				let c = match h.spendable(&tip).into_iter().find(|c| c.value > 10_000_000) {
+					Some(c) => c,
+					None => {
+						run.inconclusive("kernel scale: no spendable coin for the forged block");
+						ok = false;
+						break;
+					}
+				};
+				let fee = 1_000_000u64;
+				let delta = 1 + p.below(1_000_000_000);
+				let (ka, kb) = (h.fresh_key(), h.fresh_key());
+				let total = c.value - fee;
+				let mut pf = h.prng.fork(78);
+				let mut tx = world.tx(&mut pf, &[c.clone()], &[(total / 2 + delta, ka), (total - total / 2, kb)], KernelFeatures::Plain { fee: fee_fields(fee) }).0;
+				let secp = world.kc.secp();
+				let dc = secp.commit_value(delta).unwrap();
+				tx.body.kernels[0].excess = secp.commit_sum(vec![tx.body.kernels[0].excess, dc], vec![]).unwrap();
+				txs.push(tx);
+			} else {
+				txs.push(kernels_only_tx(&world, &mut p, 75));
+			}
+			let gb = h.add_block(&tip, &txs, if forged { "forged_unsigned_kernel" } else { "honest" }, vec![]);
+			tip = gb.hash;
+			let r = chain.process_block(gb.block.clone(), opts);
+			if forged {
+				if r.is_ok() {
+					run.violation(
+						"C01;chain;value_creating_block_accepted;kernel_scale_unsigned_kernel",
+						&format!("block {} at height {} with an unsigned kernel hiding created value accepted by process_block", gb.hash, i),
+						replay.clone(),
+					);
+					ok = false;
+					break;
+				}
+				if let Err(e) = install_behind_pipeline(&chain, &gb.block, opts) {
+					run.inconclusive(&format!("kernel scale: forged block could not be installed: {}", e));
+					ok = false;
+					break;
+				}
+			} else if let Err(e) = r {
+				run.inconclusive(&format!("kernel scale ({}): honest block at height {} ({} kernels) refused: {:?}", name, i, gb.block.kernels().len(), e));
+				ok = false;
+				break;
+			}
+		}
+		if !ok {
+			continue;
+		}
+		let n_kernels = h.ledger.kernels_of(&tip).len() as u64;
+		run.count(&format!("kernel_scale.{}.kernels", name), n_kernels);
+		let r = chain.validate(false);
+		run.eval(&format!("kernel_scale;{}", name), true);
+		run.count(&format!("kernel_scale.{}.full_validations", name), 1);
+		if r.is_ok() {
+			run.violation(
+				&format!("C01;state;forged_state_passes_full_validation;{}", name),
+				&format!("a state with {} kernels whose block at height {} holds an unsigned kernel hiding created value passes Chain::validate(false)", n_kernels, forged_at),
+				replay.clone(),
+			);
+		}
+		drop(chain);
+		let _ = std::fs::remove_dir_all(&dir);
+	}
+	run.count("kernel_scale.seconds", t0.elapsed().as_secs());
+}
+
 /// Whole-state validation at scale: a chain with more than 1000 unspent outputs (range proofs are verified in
 /// batches of 1000 over the unspent outputs, kernels in batches of 5000) in which ONE early block carries two swapped
 /// range proofs. The forged block is installed behind the pipeline, every later block (built on it) goes through the
@@ -882,8 +1040,6 @@ fn forged_state_step(
 /// two invalid proofs while the tail batch is clean. `Chain::validate(false)` must refuse it; the same chain without
 /// the swap must pass (control for the harness).
 fn deep_state_phase(run: &Run) {
-	use grin_chain::txhashset;
-	use grin_core::core::committed::Committed;
 	use vcommon::scenarios::build_multi_chunk_trunk_ex;
 	init_thread(true);
 	let t0 = std::time::Instant::now();
@@ -916,31 +1072,7 @@ fn deep_state_phase(run: &Run) {
 					ok = false;
 					break;
 				}
-				// install it behind the pipeline, with the running sums the pipeline would have stored
-				let installed: Result<(), String> = (|| {
-					chain.process_block_header(&b.header, opts).map_err(|e| format!("header: {:?}", e))?;
-					let store = chain.store();
-					let header_pmmr = chain.header_pmmr();
-					let txhashset = chain.txhashset();
-					let mut header_pmmr = header_pmmr.write();
-					let mut txhashset = txhashset.write();
-					let mut batch = store.batch().map_err(|e| format!("{:?}", e))?;
-					let prev_sums = batch.get_block_sums(&b.header.prev_hash).map_err(|e| format!("{:?}", e))?;
-					let (utxo_sum, kernel_sum) = (prev_sums, b as &dyn Committed)
-						.verify_kernel_sums(b.header.overage(), b.header.total_kernel_offset())
-						.map_err(|e| format!("sums: {:?}", e))?;
-					txhashset::extending(&mut header_pmmr, &mut txhashset, &mut batch, |ext, batch| {
-						ext.extension.apply_block(b, ext.header_extension, batch)
-					})
-					.map_err(|e| format!("apply_block: {:?}", e))?;
-					batch.save_block(b).map_err(|e| format!("{:?}", e))?;
-					batch
-						.save_block_sums(&b.hash(), grin_core::core::block_sums::BlockSums { utxo_sum, kernel_sum })
-						.map_err(|e| format!("{:?}", e))?;
-					batch.save_body_head(&grin_chain::Tip::from_header(&b.header)).map_err(|e| format!("{:?}", e))?;
-					batch.commit().map_err(|e| format!("{:?}", e))?;
-					Ok(())
-				})();
+				let installed = install_behind_pipeline(&chain, b, opts);
 				if let Err(e) = installed {
 					run.inconclusive(&format!("deep state: forged block could not be installed: {}", e));
 					ok = false;
@@ -1009,6 +1141,9 @@ fn main() {
 			if let Err(p) = vcommon::monitor::catch(|| deep_state_phase(&run)) {
 				run.inconclusive(&format!("deep state phase panicked: {} @ {}", p.message, p.location));
 			}
+			if let Err(p) = vcommon::monitor::catch(|| kernel_scale_phase(&run)) {
+				run.inconclusive(&format!("kernel scale phase panicked: {} @ {}", p.message, p.location));
+			}
 		});
 		run.spawn_workers(16, &[], run.tier.pick(400, 2400));
 		let _ = deep.join();
@@ -1018,6 +1153,10 @@ fn main() {
 		run.counter("deep_state.swapped_range_proofs_in_the_first_full_batch.full_validations"),
 		1,
 	);
+	for k in ["unsigned_kernel_inside_the_first_full_signature_batch", "unsigned_kernel_in_the_tail_after_a_full_signature_batch"] {
+		run.require(&format!("kernel scale: {}: kernels (signature batches hold 5000)", k), run.counter(&format!("kernel_scale.{}.kernels", k)), 5001);
+		run.require(&format!("kernel scale: {}: full validations", k), run.counter(&format!("kernel_scale.{}.full_validations", k)), 1);
+	}
 	run.require(
 		"deep state: unspent outputs (proof batches hold 1000)",
 		run.counter("deep_state.swapped_range_proofs_in_the_first_full_batch.unspent_outputs"),
